@@ -14,6 +14,7 @@ mod codec;
 mod gen;
 mod relations;
 mod edits;
+mod mappost;
 
 use util::*;
 
@@ -42,6 +43,8 @@ fn main() {
         ("timingcodec", "replay") => codec::timing_replay(&args, &mut s),
         ("edits", "replay") => edits::text_replay(&args, &mut s),
         ("edits", "relations") => edits::relations(&args, &mut s),
+        ("mappost", "replay") => mappost::replay(&args, &mut s),
+        ("mappost", "relations") => mappost::relations(&args, &mut s),
         (m, o) => {
             eprintln!("unknown module/mode {m} {o}");
             std::process::exit(2);
